@@ -78,6 +78,8 @@ class SendingMessage:
         # (the length of a memoryview counts its items, which can be wider than a byte: measure the bytes that go on the wire)
         annotations = {k: (v.tobytes() if isinstance(v, memoryview) else v) for k, v in annotations.items()}
         annotations_size = sum([8 + len(v) for v in annotations.values()])
+        if isinstance(payload, memoryview):
+            payload = payload.tobytes()     # (the same goes for the payload)
         flags &= ~FLAGS_COMPRESSED
         if config.COMPRESSION and len(payload) > 100:
             payload = zlib.compress(payload, 4)
